@@ -37,9 +37,13 @@ Arg(rel) ==
       [] rel = "repeated"    -> <<2, 2, 101, 2>>
       [] rel = "reversed"    -> [i \in 1..NTrain |-> NTrain + 1 - i]
       [] rel = "equalOtherMissing" -> [i \in 1..NTrain |-> i]
+      \* batches concatenated by the user: a label occurs twice and ONE of its occurrences is entirely missing -
+      \* which samples are answered is a matter of positions, not of labels
+      [] rel = "repeatedOneMissing" -> <<2, 101, 102, 102, 103>>
 
 TrainMissing(fam) == IF fam \in {"EOFnan", "MCAnan", "EOFRotator2nan"} THEN {3} ELSE {}
 ArgMissing(rel) == IF rel = "equalOtherMissing" THEN {5} ELSE {}      \* labels whose sample is entirely missing in the argument
+ArgMissingPos(rel) == CASE rel = "equalOtherMissing" -> {5} [] rel = "repeatedOneMissing" -> {4} [] OTHER -> {}   \* ... as positions
 
 \* per-sample map: the score of a sample depends on the sample only; model it
 \* as the identity on "sample content" = the label's own content id
@@ -49,17 +53,18 @@ Transform(labels) == [i \in 1..Len(labels) |-> [label |-> labels[i], from |-> Co
 Init == /\ phase = "cfg" /\ pred = <<>>
         /\ \E rel \in Relations, fam \in Families, sl \in SampleLayouts, nz \in Normalized, split \in 0..6 :
               /\ split <= Len(Arg(rel))
-              /\ (rel = "repeated") => sl = "one"      \* duplicate labels are only built for a plain sample dimension
+              /\ (rel \in {"repeated", "repeatedOneMissing"}) => sl = "one"      \* duplicate labels are only built for a plain sample dimension
               /\ (fam = "multiCCA") => ~nz
+              /\ (rel = "repeatedOneMissing") => split = 0
               /\ cfg = [rel |-> rel, fam |-> fam, slayout |-> sl, normalized |-> nz, split |-> split]
 Do == /\ phase = "cfg" /\ phase' = "done"
       /\ pred' = [labels |-> Arg(cfg.rel), out |-> Transform(Arg(cfg.rel)),
                   left |-> SubSeq(Arg(cfg.rel), 1, cfg.split), right |-> SubSeq(Arg(cfg.rel), cfg.split + 1, Len(Arg(cfg.rel))),
-                  trainMissing |-> TrainMissing(cfg.fam), argMissing |-> ArgMissing(cfg.rel),
-                  mustAnswer |-> {i \in 1..Len(Arg(cfg.rel)) : Arg(cfg.rel)[i] \notin ArgMissing(cfg.rel)},
+                  trainMissing |-> TrainMissing(cfg.fam), argMissing |-> ArgMissing(cfg.rel), argMissingPos |-> ArgMissingPos(cfg.rel),
+                  mustAnswer |-> {i \in 1..Len(Arg(cfg.rel)) : i \notin ArgMissingPos(cfg.rel)},
                   equalsScoresAt |-> {i \in 1..Len(Arg(cfg.rel)) : /\ Arg(cfg.rel)[i] <= NTrain
                                                                     /\ Arg(cfg.rel)[i] \notin TrainMissing(cfg.fam)
-                                                                    /\ Arg(cfg.rel)[i] \notin ArgMissing(cfg.rel)}]
+                                                                    /\ i \notin ArgMissingPos(cfg.rel)}]
       /\ UNCHANGED cfg
 Next == Do
 Spec == Init /\ [][Next]_vars
@@ -69,7 +74,10 @@ Done == phase = "done"
 C05_LabelsFromArgument == Done => \A i \in 1..Len(pred.labels) : pred.out[i].label = pred.labels[i]
 \* C05: which samples are answered is decided by the argument alone: every sample that is not entirely missing
 \* in the argument is answered, also one that was entirely missing in the training data
-C05_AnsweredByArgumentOnly == Done => pred.mustAnswer = {i \in 1..Len(pred.labels) : pred.labels[i] \notin pred.argMissing}
+C05_AnsweredByArgumentOnly ==
+    Done => /\ pred.mustAnswer = {i \in 1..Len(pred.labels) : i \notin pred.argMissingPos}
+            /\ \A i \in pred.argMissingPos : pred.labels[i] \in pred.argMissing \/ \E j \in pred.mustAnswer : pred.labels[j] = pred.labels[i]
+            \* (a missing occurrence of a repeated label leaves the other occurrence of that label to be answered)
 \* C05: per-sample: equal samples get equal scores wherever they occur
 C05_PerSample == Done => \A i, j \in 1..Len(pred.labels) : (pred.labels[i] = pred.labels[j]) => pred.out[i].from = pred.out[j].from
 \* C05: transform distributes over concatenation at every split
